@@ -746,6 +746,17 @@ class _FnState(object):
                     ) if has_key else EMPTY
             return AV('seq', keep, src.val | recv.val,
                       EMPTY if src.kind == 'dict' else src.kord)
+        if nm in ('searchsorted', 'digitize', 'bisect', 'bisect_left',
+                  'bisect_right') and not isinstance(t, FunctionInfo) \
+                and avs:
+            # positions found by binary search in `a`: the answer assumes
+            # `a` is sorted, so the arrangement of `a` decides *which*
+            # positions come back
+            a0 = avs[0] if not (isinstance(f, ast.Attribute) and not (
+                isinstance(f.value, ast.Name)
+                and f.value.id in ('np', 'numpy', 'bisect'))) else recv
+            return AV('seq', allv.ord - a0.ord,
+                      allv.val | recv.val | a0.ord)
         if nm in ORDER_FREE_RESULT and not isinstance(t, FunctionInfo):
             return AV('scalar', EMPTY, allv.val | recv.val)
         if nm in ('pop', 'popitem') and isinstance(f, ast.Attribute):
